@@ -427,3 +427,120 @@ func HarnessC04Compile() {
 		vfAssert(out2 == nil, "c04.eval.error-means-nil-value")
 	}
 }
+
+// ---------------------------------------------------------------------------------
+// C02 (constant expressions): marking a pure environment function as ConstExpr never changes a result;
+// it can only move the failure of that call to compile time.
+
+type vfLevel int
+
+func (l vfLevel) String() string { return "level" }
+
+type vfCEEnv struct {
+	A    int
+	P    bool
+	Pure func(int) int
+	Lvl  func(int) vfLevel
+	Cat  func(string, string) string
+	I8   func(int) int8
+}
+
+func HarnessC02ConstExpr() {
+	src := vfParamStr("src")
+	bad := vfInt("bad")
+	env := &vfCEEnv{A: vfInt("A"), P: vfBool("P")}
+	env.Pure = func(x int) int {
+		if x == bad {
+			panic("pure function rejects its argument")
+		}
+		return vfUFInt("Pure", x)
+	}
+	env.Lvl = func(x int) vfLevel { return vfLevel(x) }
+	env.Cat = func(a, b string) string { return a + b }
+	env.I8 = func(x int) int8 { return int8(x) }
+	lits := &vfLitPatcher{symbolic: vfParamInt("symlit") != 0}
+	p1, err1 := Compile(src, Env(env), Patch(lits), ConstExpr("Pure"), ConstExpr("Lvl"), ConstExpr("Cat"), ConstExpr("I8"))
+	lits.replay, lits.pos = true, 0
+	p0, err0 := Compile(src, Env(env), Patch(lits))
+	if err0 != nil {
+		vfReach("c02.constexpr.template-rejected")
+		return
+	}
+	if err1 != nil {
+		vfReach("c02.constexpr.failure-moved-to-compile-time")
+		// then the call itself fails: some literal argument is the rejected value
+		found := false
+		for _, v := range lits.vals {
+			if v == bad {
+				found = true
+			}
+		}
+		if !lits.symbolic {
+			tree, _ := parser.Parse(src)
+			f := &vfIntFinder{want: bad}
+			ast.Walk(&tree.Node, f)
+			found = f.found
+		}
+		vfAssert(found, "c02.constexpr.only-the-failure-of-the-call-moves-to-compile-time")
+		return
+	}
+	out1, e1 := Run(p1, env)
+	out0, e0 := Run(p0, env)
+	vfReach("c02.constexpr.ran")
+	// the marked program may only fail where the unmarked one fails
+	if e0 == nil {
+		vfAssert(e1 == nil, "c02.constexpr.does-not-add-run-time-failures")
+	}
+	if e1 == nil && e0 == nil {
+		vfAssert(vfSame(out1, out0), "c02.constexpr.equal-results")
+	}
+}
+
+type vfIntFinder struct {
+	want  int
+	found bool
+}
+
+func (f *vfIntFinder) Enter(n *ast.Node) {}
+func (f *vfIntFinder) Exit(n *ast.Node) {
+	if in, ok := (*n).(*ast.IntegerNode); ok && in.Value == f.want {
+		f.found = true
+	}
+}
+
+// ---------------------------------------------------------------------------------
+// C07 (program level): two compiled programs run one after the other on ONE VM value, with environments
+// of possibly different forms (map, *struct, nil); the second run must behave as on a fresh VM.
+func HarnessC07Programs() {
+	src1, src2 := vfParamStr("src1"), vfParamStr("src2")
+	mode1, mode2 := vfChoice("mode1", 3), vfChoice("mode2", 3)
+	modes := []int{0, 2, 3} // Env(*struct), Env(map), no env
+	c1 := vfMemoCompile(src1, modes[mode1], true)
+	c2 := vfMemoCompile(src2, modes[mode2], true)
+	if c1.err != nil || c2.err != nil {
+		vfReach("c07.programs.template-rejected")
+		return
+	}
+	e1 := vfMakeEnv(src1, 2)
+	e2 := vfMakeEnv(src2, 2)
+	pick := func(e *vfEnv, name string) interface{} {
+		switch vfChoice(name, 3) {
+		case 0:
+			return e
+		case 1:
+			return e.asMap()
+		}
+		return nil
+	}
+	env1, env2 := pick(e1, "env1"), pick(e2, "env2")
+	used := &vm.VM{}
+	used.Run(c1.prog, env1)
+	out1, err1 := used.Run(c2.prog, env2)
+	fresh := &vm.VM{}
+	out2, err2 := fresh.Run(c2.prog, env2)
+	vfReach("c07.programs.ran")
+	vfAssert((err1 == nil) == (err2 == nil), "c07.programs.same-outcome-as-fresh")
+	if err1 == nil && err2 == nil {
+		vfAssert(vfSame(out1, out2), "c07.programs.same-result-as-fresh")
+	}
+}
